@@ -519,8 +519,13 @@ def compare_position(raw, hline, dline, with_model):
                     if int(b) & 1:
                         bad.append("givesCheck")
                         break
-            if "givesCheck" not in bad and any((int(a) & 2) != (int(b) & 2) for a, b in zip(vd, sv)):
-                bad.append("note:givesCheck_on_illegal_move")
+            if "givesCheck" not in bad:
+                for m, a, b in zip(pl, vd, sv):
+                    if (int(a) & 2) != (int(b) & 2):
+                        fr = "abcdefgh".index(m[0]) + 8 * (int(m[1]) - 1)
+                        bad.append("note:givesCheck_differs_on_illegal_king_move" if board[fr] in "Kk"
+                                   else "note:givesCheck_differs_on_illegal_nonking_move")
+                        break
     if h["ck"] != s["sck"]:
         bad.append("inCheck")
     if h["ctk"] != "0":
@@ -809,7 +814,16 @@ def run(ctx):
                 cases.append(("corpus", l))
     cases += [("seed_fen", "F " + f) for f in SEED_FENS]
     cases += gen_cases(rng, ctx.scale(22000, 600000), ctx.scale(500, 14000), 160, 2)
-    expanded, rejects = expand_cases(cpp, cases)
+    try:
+        expanded, rejects = expand_cases(cpp, cases)
+    except RuntimeError as ex:
+        # the implementation itself aborts (e.g. the assert in BitBoard::staticInitialize on a table collision)
+        rc, out, err = sh([cpp, "expand"], input="F " + START_FEN + "\n", timeout=60)
+        ctx.violation("the engine code aborts while generating moves / initialising its tables: %s" % str(ex)[:300],
+                      {"translator": tie_broken, "broken_proof": None if ok else info, "table_problems": table_problems[:5],
+                       "failing_input": {"kind": "abort", "raw": None, "fen": START_FEN, "rc": rc, "stderr": err[-1500:]}},
+                      key="abort:startpos" if rc != 0 else None, no_failing_input=(rc == 0))
+        return
     for k, v in rejects.items():
         ctx.count("rejected_by_readFEN_" + k, v)
     seen = set()
